@@ -2096,3 +2096,176 @@ BENIGN += [
         let datasync_channel""")],
      "sed": [("src/cas.rs", "                    pre_create_all_cas_directories(&paths)?;", "                    pre_create_all_cas_directories(paths)?;")]},
 ]
+
+
+BENIGN += [
+    {"name": "b47-orphan-cleanup-iterator-adaptors",
+     "edits": [("src/orphan.rs",
+                """        for path in &self.invalid_files {
+            if path.exists() {
+                match std::fs::remove_file(path) {
+                    Ok(_) => result.invalid_files_removed += 1,
+                    Err(e) => result.errors.push(format!("Failed to remove {path:?}: {e}")),
+                }
+            }
+        }
+""",
+                """        for path in self.invalid_files.iter().filter(|p| p.exists()) {
+            match std::fs::remove_file(path) {
+                Ok(_) => result.invalid_files_removed += 1,
+                Err(e) => result.errors.push(format!("Failed to remove {path:?}: {e}")),
+            }
+        }
+""")]},
+    {"name": "b48-commit-blob-remove-dead-arm-and-early-mkdir",
+     "edits": [("src/cas_manager.rs",
+                """        if !self.dir_tree_is_pre_created
+            && let Some(parent) = final_cas_path.parent()
+        {
+            std::fs::create_dir_all(parent).map_err(|e| CasManagerError::FileOperation {
+                operation: CasIoOperation::CreateSubdir,
+                path: final_cas_path.clone(),
+                source: e,
+            })?;
+        }
+""",
+                """        if !self.dir_tree_is_pre_created {
+            self.ensure_shard_dir(&final_cas_path)?;
+        }
+"""),
+               ("src/cas_manager.rs",
+                """    /// Delete blobs from CAS that are unreferenced""",
+                """    fn ensure_shard_dir(&self, final_cas_path: &Path) -> Result<(), CasManagerError> {
+        let Some(parent) = final_cas_path.parent() else {
+            return Ok(());
+        };
+        std::fs::create_dir_all(parent).map_err(|e| CasManagerError::FileOperation {
+            operation: CasIoOperation::CreateSubdir,
+            path: final_cas_path.to_path_buf(),
+            source: e,
+        })
+    }
+
+    /// Delete blobs from CAS that are unreferenced""")]},
+    {"name": "b49-delete-blobs-if-let-err",
+     "edits": [("src/cas_manager.rs",
+                """            match std::fs::remove_file(&file_path) {
+                Ok(_) => {
+                    tracing::debug!(
+                        "Successfully deleted unreferenced CAS file: {}",
+                        file_path.display()
+                    );
+                }
+                Err(e) if e.kind() == std::io::ErrorKind::NotFound => {
+                    tracing::warn!(
+                        "CAS file '{}' for unreferenced hash {} not found during deletion, skipping.",
+                        file_path.display(),
+                        hash
+                    );
+                }
+                Err(e) => {
+                    return Err(CasManagerError::FileOperation {
+                        operation: CasIoOperation::RemoveFile,
+                        path: file_path,
+                        source: e,
+                    });
+                }
+            }
+""",
+                """            if let Err(e) = std::fs::remove_file(&file_path) {
+                if e.kind() != std::io::ErrorKind::NotFound {
+                    return Err(CasManagerError::FileOperation {
+                        operation: CasIoOperation::RemoveFile,
+                        path: file_path,
+                        source: e,
+                    });
+                }
+                tracing::warn!(
+                    "CAS file '{}' for unreferenced hash {} not found during deletion, skipping.",
+                    file_path.display(),
+                    hash
+                );
+            }
+""")]},
+]
+
+
+BENIGN += [
+    {"name": "b50-decrement-ref-let-else-and-gt",
+     "edits": [("src/index/state.rs",
+                """        match self.hash_to_ref_count.get_mut(hash_to_decrement) {
+            Some(count) => {
+                if *count == 0 {
+                    return Err(IndexStateError::DecrementZeroRefCount {
+                        hash: *hash_to_decrement,
+                    });
+                }
+                *count -= 1;
+                if *count == 0 {
+                    self.hash_to_ref_count.remove(hash_to_decrement);
+                    Ok(Some(*hash_to_decrement))
+                } else {
+                    Ok(None)
+                }
+            }
+            None => Err(IndexStateError::HashNotFoundForDecrement { hash: *hash_to_decrement }),
+        }""",
+                """        let Some(count) = self.hash_to_ref_count.get_mut(hash_to_decrement) else {
+            return Err(IndexStateError::HashNotFoundForDecrement { hash: *hash_to_decrement });
+        };
+        if *count == 0 {
+            return Err(IndexStateError::DecrementZeroRefCount { hash: *hash_to_decrement });
+        }
+        *count -= 1;
+        if *count != 0 {
+            return Ok(None);
+        }
+        self.hash_to_ref_count.remove(hash_to_decrement);
+        Ok(Some(*hash_to_decrement))""")]},
+    {"name": "b51-increment-ref-reports-now-one",
+     "edits": [("src/index/state.rs",
+                """        let entry = self.hash_to_ref_count.entry(*hash).or_default();
+        let was_zero = *entry == 0;
+        *entry += 1;
+        was_zero""",
+                """        let entry = self.hash_to_ref_count.entry(*hash).or_default();
+        *entry += 1;
+        *entry == 1""")]},
+]
+
+
+MUTANTS += [
+    {"name": "c07-inc-reports-is-one-before-add",
+     "edits": [("src/index/state.rs",
+                """        let was_zero = *entry == 0;
+        *entry += 1;
+        was_zero""",
+                """        let was_zero = *entry == 1;
+        *entry += 1;
+        was_zero""")],
+     "expect": [("C07", "inc-primitive")]},
+    {"name": "c07-inc-reports-is-zero-after-add",
+     "edits": [("src/index/state.rs",
+                """        let was_zero = *entry == 0;
+        *entry += 1;
+        was_zero""",
+                """        *entry += 1;
+        *entry == 0""")],
+     "expect": [("C07", "inc-primitive")]},
+]
+
+
+MUTANTS += [
+    {"name": "c02-highest-keeps-smaller-version",
+     "edits": [("src/wal/replay.rs",
+                """                highest = match highest {
+                    Some(prev) => Some(prev.max(entry.version)),
+                    None => Some(entry.version),
+                };
+""",
+                """                if highest.is_none_or(|prev| entry.version < prev) {
+                    highest = Some(entry.version);
+                }
+""")],
+     "expect": [("C02", "C02|R7")]},
+]
